@@ -306,10 +306,21 @@ pub const DEC: u8 = 1;
 pub const ACC: u8 = 2;
 
 pub fn decode<'a>(data: &'a [u8], cipher: &(impl CipherProvider + ?Sized)) -> Outcome<'a> {
+    // Values that are not needed are forgotten, not dropped: the generic drop glue of
+    // `ParsingError<NtpPacket>` / `Option<DecodedServerCookie>` switches on a merged (symbolic)
+    // discriminant and walks three `Vec<ExtensionField>` of unknown length on infeasible paths,
+    // which dominates symbolic execution (measured: ~2 s per phantom iteration).
     match NtpPacket::deserialize(data, cipher) {
-        Ok((p, c)) => Outcome::Accepted(p, c.is_some()),
+        Ok((p, c)) => {
+            let has_cookie = c.is_some();
+            std::mem::forget(c);
+            Outcome::Accepted(p, has_cookie)
+        }
         Err(PacketParsingError::DecryptError(p)) => Outcome::DecryptFailed(p),
-        Err(_) => Outcome::Rejected,
+        Err(e) => {
+            std::mem::forget(e);
+            Outcome::Rejected
+        }
     }
 }
 
@@ -430,6 +441,25 @@ pub fn from_utf8_stub(v: &[u8]) -> Result<&str, std::str::Utf8Error> {
 /// Model of `<[u8]>::is_ascii` (the real one takes a SIMD path Kani models with nested loops).
 pub fn is_ascii_stub(v: &[u8]) -> bool {
     all_ascii(v)
+}
+
+/// zeroize (behind the `Drop` of the AES-SIV key types, server key context): the compiler barrier is
+/// inline assembly (no semantic effect; Kani cannot encode it); `volatile_set` is a per-byte
+/// volatile-write loop, replaced by the equivalent memset. (Same stubs as np_keyset_h.)
+pub fn zeroize_barrier_stub<T: ?Sized>(_val: &T) {}
+pub unsafe fn zeroize_volatile_set_stub<T: Copy + Sized>(dst: *mut T, src: T, count: usize) {
+    unsafe {
+        if std::mem::size_of::<T>() == 1 {
+            let b: u8 = std::mem::transmute_copy(&src);
+            std::ptr::write_bytes(dst as *mut u8, b, count);
+        } else {
+            let mut i = 0;
+            while i < count {
+                std::ptr::write(dst.add(i), src);
+                i += 1;
+            }
+        }
+    }
 }
 
 /// `harness!` + the two string-validation models above.
